@@ -47,6 +47,7 @@ def check_zeroth(rep, algopy, rng, tier):
             rep.count('zeroth:op', nm)
             rep.case(('zeroth', nm, json.dumps(case, sort_keys=True, default=str)), P >= 2 or D >= 2,
                      sample=dict(check='zeroth', op=nm, D=D, P=P, shapes=[list(x.shape[2:]) for x in inputs]))
+            ops.LAYOUT = rng.choice(['C', 'C', 'C', 'F', 'T'])
             try:
                 outs = op.run(algopy, case, inputs)
             except Exception as e:
@@ -131,6 +132,50 @@ def check_reductions(rep, algopy, rng, tier):
                     if not numpy.allclose(yd, xd.reshape((D, P, -1)).sum(axis=2), rtol=1e-13, atol=1e-13):
                         rep.violation('reduction:sum:coefficients', '%s of coefficient shape %s is not the coefficient-wise sum' % (name, shp),
                                       dict(kind='reduction', op=name, shape=list(shp), x=xd.tolist()))
+
+
+def check_selection(rep, algopy, rng, tier):
+    """max over all elements (UTPM.max) and element-wise maximum / minimum: the element selected in direction p is the NumPy one for
+    direction p's zeroth coefficients (the directions may select different elements)"""
+    UTPM = algopy.UTPM
+    n = 40 if tier == 'quick' else 600
+    for _ in range(n):
+        D = rng.randint(1, 3); P = rng.randint(1, 3)
+        shp = rng.choice([(3,), (4,), (2, 3), (2, 2)])
+        nel = int(numpy.prod(shp))
+        xd = numpy.array([rng.randint(-20, 20) / 4 for _ in range(D * P * nel)]).reshape((D, P) + shp)
+        for p in range(P):                      # unique maximum per direction, at a position that differs between directions
+            flat = xd[0, p].reshape(-1)
+            flat[rng.randrange(nel)] = 9.0 + p
+        rep.count('selection', 'max')
+        rep.case(('max', xd.tobytes().hex()), P >= 2, sample=dict(check='UTPM.max', D=D, P=P, shape=list(shp)))
+        try:
+            y = numpy.asarray(UTPM.max(UTPM(xd.copy())).data)
+            want = numpy.zeros((D, P))
+            for p in range(P):
+                k = int(numpy.argmax(xd[0, p]))
+                want[:, p] = xd[:, p].reshape((D, -1))[:, k]
+            if y.shape != want.shape or not numpy.array_equal(y, want):
+                rep.violation('selection:max', 'UTPM.max: result %s, the coefficients of the per-direction maximal element are %s' % (y.tolist(), want.tolist()),
+                              dict(kind='selection', op='max', x=xd.tolist()))
+        except NotImplementedError:
+            rep.count('selection', 'max: refused (documented NotImplementedError for rank > 1)')
+        except Exception as e:
+            rep.violation('selection:max:exception', 'UTPM.max raises %r' % (e,), dict(kind='selection', op='max', x=xd.tolist(), exc=repr(e)))
+        yd = numpy.array([rng.randint(-20, 20) / 4 for _ in range(D * P * nel)]).reshape((D, P) + shp)
+        yd[0][yd[0] == xd[0]] += 0.5            # no ties
+        for name in ('maximum', 'minimum'):
+            rep.count('selection', name)
+            rep.case((name, xd.tobytes().hex(), yd.tobytes().hex()), P >= 2, sample=dict(check=name, D=D, P=P, shape=list(shp)))
+            try:
+                z = numpy.asarray(getattr(UTPM, name)(UTPM(xd.copy()), UTPM(yd.copy())).data)
+                pick = (xd[0] >= yd[0]) if name == 'maximum' else (xd[0] <= yd[0])
+                want = numpy.where(pick[None], xd, yd)
+                if z.shape != want.shape or not numpy.array_equal(z, want):
+                    rep.violation('selection:' + name, 'UTPM.%s does not select, per direction and element, the operand NumPy selects on the zeroth coefficients' % name,
+                                  dict(kind='selection', op=name, x=xd.tolist(), y=yd.tolist()))
+            except Exception as e:
+                rep.violation('selection:%s:exception' % name, 'UTPM.%s raises %r' % (name, e), dict(kind='selection', op=name, exc=repr(e)))
 
 
 def check_shape_attrs(rep, algopy, rng, tier):
@@ -283,7 +328,9 @@ def main(tier, seed):
     rep.theorems()
     rng = lib.rng_for(seed, PID)
     check_zeroth(rep, algopy, rng, tier)
+    ops.LAYOUT = 'C'
     check_reductions(rep, algopy, rng, tier)
+    check_selection(rep, algopy, rng, tier)
     check_shape_attrs(rep, algopy, rng, tier)
     check_comparisons(rep, algopy, rng, tier)
     check_plain(rep, algopy, rng, tier)
